@@ -11,9 +11,9 @@ COMMON_NOTE = ('Trusted: Coq 8.16.1 kernel (vm_compute for finite sweeps, no nat
                'the Gallina model is hand-written and tied to /repo by the behavioural correspondence run of this check '
                '(extracted with ExtrOcamlBasic only) and by Gen/Consts.v reflected from the live modules; ')
 
-ITEM_NOTE = ("threaded code: the real classes run unmodified under a deterministic scheduler whose stand-ins for Lock/RLock, queue.Queue, ThreadPoolExecutor, Thread, socket, time yield before every shared action and after every lock release; one LTS step = one lock region / queue operation / adapter-call boundary (data-race freedom => region atomicity under the GIL is assumed and exercised); schedule enumeration is exhaustive only within the stated preemption bound; eventual quiescence (termination) is not proved; CPython memory management is outside the model (retention is stated on the library's own data structures).")
+ITEM_NOTE = ("threaded code: the real classes run unmodified under a deterministic scheduler whose stand-ins for Lock/RLock, queue.Queue, ThreadPoolExecutor, Thread, socket, time yield before every shared action and after every lock release; one LTS step = one lock region / queue operation / adapter-call boundary (data-race freedom => region atomicity under the GIL: its premise is checked on every run by lockset tracing of the shared fields of subscription.py, and a tenth of the runs use line-granular preemption judged by the oracle only); schedule enumeration is exhaustive only within the stated preemption bound; termination is proved for the per-item system (measure) and as enabledness for the pool (no deadlock), not as a time bound; CPython memory management is outside the model (retention is stated on the library's own data structures).")
 
-SHELL_NOTE = ("threaded code as for C01 (deterministic scheduler, stand-ins yielding before every shared action); ThreadPoolExecutor(n) modelled as a FIFO of jobs run once each by one of n workers that stores a job's exception, shutdown(wait) returning after all accepted jobs; request lines are abstracted to classes (decoding is C06/C09, reply contents C07/C08); a Data server closed by the application while SUB/USB still arrive (submit raising inside add_task) is not modelled and counted as unmodelled; socket.close() waking a blocked recv and real process exit are assumptions.")
+SHELL_NOTE = ("threaded code as for C01 (deterministic scheduler, stand-ins yielding before every shared action); ThreadPoolExecutor(n) modelled as a FIFO of jobs run once each by one of n workers that stores a job's exception, shutdown(wait) returning after all accepted jobs; request lines are abstracted to classes (the abstraction function Model/Classify.v is compared with the generator on every run; decoding is C06/C09, reply contents C07/C08 and Model/MetaHandlers.v); a Data server closed by the application while SUB/USB still arrive (submit raising inside add_task) is not modelled and counted as unmodelled; socket.close() waking a blocked recv and real process exit are assumptions.")
 
 CLAIMS = {
     'C01': dict(
@@ -72,7 +72,7 @@ CLAIMS = {
              'c20_close_honoured / c20_close_ignored / c20_close_bad_id, c20_close_sequence, c20_join_waits_for_writer, c20_shutdown_waits_for_pool, c20_closed_means_drained (invariant: socket closed by the library => writer ended, pool drained, every accepted job completed), '
              'c20_no_fault_no_report, c20_writer_drains, c20_exit_only_after_report (monitor exit_ok along every execution), c20_read_fault, c20_own_close_silent, c20_handler_decides_reader / _writer (exit iff the handler returns True), c20_write_fault, c20_reclose (Props/C20.v). '
              'The real servers run under the deterministic scheduler with scripted EOF / ECONNRESET after each chunk position (before init, mid-line, between requests), the k-th write failing, handler absent / returning True / False / None, agreed versions none / 1.8.2 / 1.8.3, close ids 0 / other, '
-             'application close() once or twice; os._exit is substituted by a recording primitive that halts the run; every step is replayed through the model and the property text is the oracle (handler calls, exit calls, socket close, bytes written after the fault).',
+             'application close() once or twice; os._exit is substituted by a recording primitive that halts the run; every step is replayed through the model and the property text is the oracle (handler calls, exit calls, socket close, bytes written after the fault). Faults also hit in the middle of the last line (between CR and LF, before the terminator, inside a token); six classes of injected I/O errors; a failing write may leave a fragment.',
         ref='6 C20',
         note=SHELL_NOTE + ' Runtime facts assumed, not modelled: socket.close() waking a blocked recv is OS dependent (scripted as an error on the next recv); os._exit never returns.',
         tech='Coq proof (inductive invariants, history monitors and step lemmas over a connection-level LTS with fault labels) + scheduler-driven fault-injection correspondence + oracle'),
@@ -88,7 +88,7 @@ CLAIMS = {
         text='Coq theorems c05_alphabet / c05_sep_free / c05_roundtrip / c05_special_only / c05_injective / c05_alt (Props/C05.v) hold for '
              'every list of Unicode scalar values of any length (UTF-8 model + quote_plus model, per-byte facts closed by vm_compute over all '
              '256 bytes and lifted by induction); the model is compared with protocol.encode_string / decode_string on every run (thorough: '
-             'all 1,112,064 scalar values and all strings of length <= 3 over the reserved alphabet) and the property text is evaluated as an oracle.',
+             'all 1,112,064 scalar values and all strings of length <= 3 over the reserved alphabet) and the property text is evaluated as an oracle. The check also covers every use site (each text slot of each writer carries exactly the codec token) and concurrent use (scheduled threads with line-granular preemption).',
         ref='6 C05',
         note='urllib.parse.quote_plus/unquote_plus and the UTF-8 codec are modelled, not verified; invalid UTF-8 after unquoting is outside the model.',
         tech='Coq proof (induction over scalar lists, exhaustive 256-byte sweeps by vm_compute) + extracted-model vs implementation differential check + oracle'),
@@ -96,7 +96,7 @@ CLAIMS = {
         text='Coq theorem c06_roundtrip (Props/C06.v): for all 18 request kinds, all ids, all argument values (texts, ints, modes, platform codes, maps, lists, '
              'table lists of any length) and both terminators, decode_line (encode_line ...) returns id, method and exactly the values in their roles; '
              'c06_term_indep for every line body. The reference encoder (specification side) is cross-checked byte for byte against an independent Python '
-             'restatement, the reader model against the real parse_request + read_* functions, and delivery to the adapter through the real servers.',
+             'restatement, the reader model against the real parse_request + read_* functions, and delivery to the adapter through the real servers. Decoding is also checked to be independent of history: results of earlier calls are modified and the call repeated; bare init with local parameters followed by header-less requests through both servers.',
         ref='6 C06',
         note='int() limited to 4300 digits (hypothesis ints_ok); Python str compared as UTF-8 bytes.',
         tech='Coq proof (token-list induction, symbolic evaluation of fixed offsets) + differential check of reader model and spec encoder + oracle through the real server'),
@@ -104,7 +104,7 @@ CLAIMS = {
         text='Coq theorems c07_lists / c07_item_data / c07_notify_user / c07_update / c07_item_notify / c07_failure / c07_void / c07_init_reply (Props/C07.v): for every datum of supported types '
              '(texts of any content, lists / dicts / field lists of any length, all ints, every order and subset of modes, bytes values, None) the writer yields one CR/LF-free line which the reference ARI decoder '
              '(Model/AriReply.v, specification side) parses back to exactly the supplied data, with a token count that is a function of the list lengths only; c07_*_unsupported: an unsupported type in any slot '
-             'yields an error and no line. Writers model vs the real write_* functions, Coq reference decoder vs an independent Python ARI decoder, and lines produced through the real servers are compared on every run.',
+             'yields an error and no line. Writers model vs the real write_* functions, Coq reference decoder vs an independent Python ARI decoder, and lines produced through the real servers are compared on every run. Every character of every written line is checked against the protocol alphabet; the id / timestamp envelope (Model/Envelope.v: c07_reply_envelope, c07_notify_envelope) is compared on the real servers; GIT / GUI with repeated item names through the server.',
         ref='6 C07',
         note='float.__repr__/float() are CPython facts: a float is carried as its repr token (hypothesis ftok_ok: non-empty, separator-free) and float(token) == value is checked by the oracle across magnitudes; '
              'base64 and quote_plus are modelled; a non-dict events map / a str where a list is expected are outside the property.',
@@ -142,7 +142,7 @@ CLAIMS = {
              'c13_gaps (every gap between consecutive writes <= T; a KEEPALIVE by timeout comes after EXACTLY T), c13_wait_is_interval / c13_positive_interval_enables (T is the interval current when the wait began), c13_disabled, '
              'c13_change, c13_lines_intact / c13_only_keepalives_added — for every sequence of delays, timeouts, submissions and interval changes. The real _Sender runs in virtual time (virtual queue and clock) on scripted timed histories '
              '(gaps just below / at / above K, bursts, idle periods of thousands of K, changes, pills, None, stop) and the interval change at init through the real MetadataProviderServer; every environment action is replayed through the model, '
-             'whose guards refuse a timeout that fires at another moment than the model says; oracle from the property text on (virtual time, line).',
+             'whose guards refuse a timeout that fires at another moment than the model says; oracle from the property text on (virtual time, line). A Data-server part in virtual time checks that every written line (replies, notifications, the FAL of the default exception handling) comes from the one writer and restarts the silence.',
         ref='6 C13',
         note='virtual time: queue.get(timeout=T) raises Empty after exactly T of silence, writes take no time; OS timer slack and a sendall that blocks are not exhibited; an interval change takes effect when the next wait begins (around a change the oracle accepts any interval in force during the gap; the model comparison is exact).',
         tech='Coq proof (invariant over a timed transition system, lra on Q) + virtual-time correspondence of the real writer loop + oracle'),
@@ -150,14 +150,14 @@ CLAIMS = {
         text='Coq theorems over Model/Outbound.v (any number of producers, FIFO queue, single writer scheduled arbitrarily late): c16_no_loss_no_dup, c16_per_thread_order, c16_puts_in_program_order, c16_stream_is_lines, '
              'c16_lines_recoverable(_partial) (splitting the byte stream on CRLF returns exactly the written messages, also mid-write), c16_dead_writes_nothing, c16_nested_before_reply. The real DataProviderServer runs under the deterministic scheduler '
              'with the writer NOT scheduled eagerly, up to 7 adapter threads plus pool workers submitting replies, updates (payloads up to > 64 KiB), EOS/CLS and failures, occasional write faults; every put / get / sendall is replayed through the model; '
-             'oracle from the property text; the thorough tier adds a real-thread real-socketpair stress (a test).',
+             'oracle from the property text; the thorough tier adds a real-thread real-socketpair stress (a test). A quarter of the runs use line-granular preemption (oracle only); a third run with DEBUG logging enabled; the oracle checks per listener call that the line enqueued carries that call\'s whole payload; a failing write may leave a fragment (torn-line oracle).',
         ref='6 C16',
         note=ITEM_NOTE + ' queue.Queue is modelled as a linearizable FIFO list, socket.sendall as atomic and complete; the real-thread stress run is a test, not part of the proof.',
         tech='Coq proof (conservation invariant over an LTS, list lemmas for CRLF splitting) + scheduler-driven correspondence of the real code + oracle (+ real-thread stress in thorough)'),
     'C15': dict(
         text='Coq theorem c15_segmentation (Props/C15.v): for every list of lines (CRLF or LF terminated, bodies free of line-boundary characters), every incomplete tail and EVERY list of chunks '
              'whose concatenation is that stream, folding the reader-loop step over the chunks dispatches exactly those lines, once, in order, and holds back the tail - no bound on lines, chunks or cut positions. '
-             'The step function is compared chunk by chunk with the real _RequestManager._do_run over a scripted socket (every placement of up to 3 cuts on short streams, byte-at-a-time, random).',
+             'The step function is compared chunk by chunk with the real _RequestManager._do_run over a scripted socket (every placement of up to 3 cuts on short streams, byte-at-a-time, random). Reads are bounded by the recv size (long streams cut at its multiples); connections ending on a partial line, and connections following them in the same process, are covered.',
         ref='6 C15',
         note='str.splitlines / decode("ascii") modelled (all eight ASCII line boundaries); socket.recv scripted.',
         tech='Coq proof (induction over the chunk list with a buffer invariant) + differential check against the real reader loop + oracle'),
